@@ -108,7 +108,7 @@ class Module(object):
                 if rel is not None:
                     # `from . import x` style: the name may be a submodule
                     sub = self._resolve_rel(s.level, ((s.module + '.') if s.module else '') + a.name)
-                    if sub is not None and not self._defines(rel, a.name):
+                    if sub is not None and (rel == self.relpath or not self._defines(rel, a.name)):     # (a package importing its own submodule)
                         self.imports[local] = (sub, None)
                     else:
                         self.imports[local] = (rel, a.name)
